@@ -71,6 +71,8 @@ fn main() {
         "C19" => props::c19::run(tier),
         "C01" => props::w3props::run_ring(props::w3props::Which::C01, tier),
         "C02" => props::w3props::run_ring(props::w3props::Which::C02, tier),
+        "C06" => props::w3props::run_c06(tier),
+        "C13" => props::w3props::run_c13(tier),
         _ => {
             eprintln!("unknown property {prop}");
             std::process::exit(2)
